@@ -107,7 +107,10 @@ pub fn accepted_is_what_the_header_declares(ctx: &mut Ctx, b: &[u8]) {
     }
     let r = guard(|| {
         let Ok(m) = Message::from_bytes(b) else { return None };
-        let h = MessageHeader::from_bytes(&b[..20]).ok().map(|h| (h.data_length() as usize + 20, h.get_type() == m.get_type(), h.transaction_id() == m.transaction_id()));
+        let h = MessageHeader::from_bytes(&b[..20]).ok().map(|h| {
+            let same_type = h.get_type() == m.get_type() && h.get_type().method() == m.method() && h.get_type().class() == m.class() && m.has_method(h.get_type().method()) && m.has_class(h.get_type().class());
+            (h.data_length() as usize + 20, same_type, h.transaction_id() == m.transaction_id())
+        });
         let mut prefixes = vec![];
         for cut in [b.len() - 1, b.len().saturating_sub(4), b.len().saturating_sub(8), b.len().saturating_sub(12), b.len().saturating_sub(24), 20] {
             if cut >= 20 && cut < b.len() {
@@ -215,6 +218,9 @@ pub fn run(ctx: &mut Ctx) {
             for cut in [0usize, 1, 2, 3, 4, 19, 20, 21, 24, 27] {
                 check_prefix(ctx, &m2, cut);
             }
+            // the header decoder and the full parse report the same type, id and declared length
+            accepted_is_what_the_header_declares(ctx, &m);
+            accepted_is_what_the_header_declares(ctx, &m2);
             ctx.count("message-types-cut");
         }
         ctx.require("message-types-cut", 16_384);
